@@ -117,7 +117,7 @@ def run_sim(pid, tier, seed, replay, ctx, gens, mech):
                 " (sorted traces of 1-60 packets with bursts / equal timestamps / gaps up to seconds, delays 0..250ms, optional pps, "
                 "0-3 machines per side from templates, all stop and filter settings); every case is 8 runs of the real simulator; "
                 "distinct = distinct coverage signature (set of mechanisms the runs exercised: padding, blocking, bypass, replace, timers, "
-                "cancels, aggregate delay, pps limit, each stop condition, filters, machine counts); non-trivial = signature touches "
+                "cancels, aggregate delay, pps limit, each stop condition, filters, machine counts, and the shape of the input trace: length class, bursts, equal timestamps in both directions, gaps, delay); non-trivial = signature touches "
                 + (", ".join(mech) if mech else "any mechanism"),
         "samples": samples or ["(no non-trivial sample)"],
         "traces_validated_against_impl": sims,
